@@ -552,6 +552,29 @@ impl Real {
                     }
                 }
             }
+            ["trace_check", us] => {
+                // the tracing relation of a user key, evaluated by the model on the real scalars of the master key
+                self.model_line = Some("noop".into());
+                let Some(i) = handle('U', us) else { return "bad-op".into() };
+                let (Some(Some(u)), Some(Some(m))) = (self.usks.get(i), self.msks.first()) else { return "bad-op".into() };
+                let wm = WMsk::read(&m.serialize().unwrap()).expect("harness cannot parse MSK bytes");
+                let wu = WUsk::read(&u.serialize().unwrap()).expect("harness cannot parse USK bytes");
+                if wm.tracers.len() != wu.id.len() {
+                    return "ok 0".into();
+                }
+                let mut l = format!("trace {} {}", crate::util::CFG, hex(&wm.s));
+                for (t, _) in &wm.tracers {
+                    l.push(' ');
+                    l.push_str(&hex(t));
+                }
+                for a in &wu.id {
+                    l.push(' ');
+                    l.push_str(&hex(a));
+                }
+                self.model_line = Some(l);
+                // the implementation side only states that this is a key it produced: the relation must hold
+                "ok 1".into()
+            }
             ["ser", h] => {
                 // serialise an object: announced length, equality after a round trip; the model is given the bytes
                 macro_rules! ser {
